@@ -133,20 +133,65 @@ def do_set(inst, attr, value):
 # generators
 # ---------------------------------------------------------------------------------------------
 NAMES = ["", "spec", "My Spectrometer", "a: b", "x", "KS3", "poly 1", "H-alpha", "name with \"quote\""]
+# name = str(value): values that are not strings are legal
+NAME_OBJECTS = [123, None, 2.5, ("a", 1), True]
+
+import collections
+STATS = collections.Counter()      # what the generators actually produced (goes into the evidence)
+QUICK = [True]                     # tier switch for the size classes
+
+
+def ulp_up(x):
+    return float(np.nextafter(x, np.inf))
+
+
+def ulp_dn(x):
+    return float(np.nextafter(x, -np.inf))
+
+
+def gen_name(rng):
+    """(value handed to the setter, the string the instrument must hold)"""
+    if rng.random() < 0.15:
+        v = rng.choice(NAME_OBJECTS)
+        STATS["name:non-str object"] += 1
+        return v, str(v)
+    v = rng.choice(NAMES)
+    return v, v
 
 
 def gen_edges(rng, style=None):
     """strictly increasing pixel-edge array (at least 2 entries)"""
-    style = style or rng.choice(["dyadic", "dyadic", "full", "survey", "hires", "two"])
+    style = style or rng.choice(["dyadic", "dyadic", "full", "survey", "hires", "two", "ulp", "intratio", "integer", "many"])
+    STATS["edges:" + style] += 1
     if style == "two":
         a = dyadic(rng, 200, 900, 6)
         return [a, a + dyadic(rng, 0.05, 4, 8)], style
     n = rng.randint(2, 9)
-    if style == "dyadic":
+    if style == "many":              # loop-count classes 9/10/11 (and 99/100/101 in the thorough tier)
+        n = rng.choice([9, 10, 11] if QUICK[0] or rng.random() < 0.7 else [99, 100, 101])
+        style = "full"
+    if style in ("dyadic", "ulp"):
         a = dyadic(rng, 200, 900, 4)
         out = [a]
         for _ in range(n):
             out.append(out[-1] + dyadic(rng, 2 ** -6, 4, 6))
+        if style == "ulp":           # one pixel exactly one ulp wide (the narrowest width np.diff(...) <= 0 lets through)
+            i = rng.randrange(len(out) - 1)
+            out.insert(i + 1, ulp_up(out[i]))
+    elif style == "intratio":        # (max - min) / step is exactly an integer, or one ulp off it: the ceil boundary
+        a = dyadic(rng, 200, 900, 3)
+        w = 2.0 ** -rng.randint(0, 5)
+        out = [a + i * w for i in range(n + 1)]
+        r = rng.random()
+        if r < 0.3:
+            out[-1] = ulp_up(out[-1])
+        elif r < 0.6:
+            out[-1] = ulp_dn(out[-1])
+    elif style == "integer":         # integer-valued edges (can be handed over as int arrays)
+        a = float(rng.randint(200, 900))
+        out = [a]
+        for _ in range(n):
+            out.append(out[-1] + rng.randint(1, 5))
     elif style == "full":
         a = rng.uniform(200, 900)
         out = [a]
@@ -169,25 +214,40 @@ def gen_edges(rng, style=None):
 
 
 def gen_bad_edges(rng):
-    k = rng.randint(0, 3)
+    k = rng.randint(0, 4)
+    STATS["bad edges:" + ["one element", "repeated edge", "decreasing", "empty", "last two swapped"][k]] += 1
     if k == 0:
         return [dyadic(rng, 200, 900, 4)]                      # one element
     e, _ = gen_edges(rng, "dyadic")
     if k == 1:
         i = rng.randrange(len(e) - 1)
-        e[i + 1] = e[i]                                          # repeated edge
+        e[i + 1] = e[i]                                          # repeated edge (zero-width pixel)
     elif k == 2:
         e = e[::-1]                                              # decreasing
-    else:
+    elif k == 3:
         return []                                                # empty array
+    else:
+        e[-1], e[-2] = e[-2], e[-1]                              # increasing except for the last step
     return e
 
 
-def gen_w2p(rng, allow_bad=True):
-    """value for wavelength_to_pixel; returns (value, valid)"""
-    n = rng.choice([1, 1, 2, 2, 3, 4])
+def gen_scale(rng, p=0.2):
+    """a power of two: the property is covariant under it (Angstrom/nm/m ...), and the scaling is exact in binary"""
+    if rng.random() < p:
+        STATS["scaled by 2^k"] += 1
+        return 2.0 ** rng.randint(-30, 30)
+    return 1.0
+
+
+def gen_w2p(rng, allow_bad=True, allow_empty=False):
+    """numbers for wavelength_to_pixel as a list of lists of floats; returns (value, valid)"""
+    if allow_empty and rng.random() < 0.04:
+        STATS["w2p:no spectra at all"] += 1
+        return [], True
+    n = rng.choice([1, 1, 2, 2, 3, 4]) if QUICK[0] else rng.choice([1, 1, 2, 2, 3, 4, 5, 6])
     arrs = [gen_edges(rng)[0] for _ in range(n)]
-    if n >= 2 and rng.random() < 0.35:
+    r = rng.random()
+    if n >= 2 and r < 0.35:
         # nested layouts: a broad array enclosing an earlier (or later) narrow one on both sides, in either list order
         i, j = rng.sample(range(n), 2)
         inner = arrs[i]
@@ -195,70 +255,207 @@ def gen_w2p(rng, allow_bad=True):
         hi = inner[-1] + dyadic(rng, 0.5, 40, 4)
         k = rng.randint(2, 7)
         arrs[j] = [lo + (hi - lo) * t / k for t in range(k + 1)]
+        STATS["w2p:nested"] += 1
+    elif n >= 2 and r < 0.45:
+        i, j = rng.sample(range(n), 2)
+        arrs[j] = list(arrs[i])                                  # the same spectrum accommodated twice
+        STATS["w2p:repeated array"] += 1
+    elif n >= 2 and r < 0.55:
+        i, j = rng.sample(range(n), 2)                           # same start or same end as another array
+        if rng.random() < 0.5:
+            arrs[j] = [arrs[i][0]] + [x for x in arrs[j] if x > arrs[i][0]][:4] if any(x > arrs[i][0] for x in arrs[j]) else list(arrs[i])
+        else:
+            keep = [x for x in arrs[j] if x < arrs[i][-1]][-4:]
+            arrs[j] = keep + [arrs[i][-1]] if keep else list(arrs[i])
+        STATS["w2p:shared first/last edge"] += 1
+    s = gen_scale(rng)
+    if s != 1.0:
+        arrs = [[x * s for x in a] for a in arrs]
     if allow_bad and rng.random() < 0.2:
         arrs[rng.randrange(n)] = gen_bad_edges(rng)
         return arrs, False
     return arrs, True
 
 
+def form_w2p(rng, arrs):
+    """the same numbers in one of the argument forms the setter accepts (np.array(x, dtype=float) of each entry)"""
+    k = rng.randrange(9)
+    label = "list of lists"
+    val = [list(a) for a in arrs]
+    if k == 1:
+        val, label = tuple(tuple(a) for a in arrs), "tuple of tuples"
+    elif k == 2:
+        val, label = [np.array(a, dtype=np.float64) for a in arrs], "list of float64 arrays"
+    elif k == 3:
+        val = []
+        for a in arrs:
+            b = np.full(2 * len(a), -1.0)
+            b[::2] = a
+            v = b[::2]
+            v.flags.writeable = False
+            val.append(v)
+        val, label = tuple(val), "non-contiguous read-only views"
+    elif k == 4 and arrs and all(len(a) == len(arrs[0]) for a in arrs) and len(arrs[0]) > 0:
+        val, label = np.array(arrs, dtype=np.float64), "2-D ndarray (rows)"
+    elif k == 5 and all(float(np.float32(x)) == x for a in arrs for x in a):
+        val, label = [np.array(a, dtype=np.float32) for a in arrs], "float32 arrays"
+    elif k == 6 and all(float(x).is_integer() and abs(x) < 2 ** 31 for a in arrs for x in a):
+        val, label = ([np.array(a, dtype=np.int64) for a in arrs] if rng.random() < 0.5 else [[int(x) for x in a] for a in arrs]), "int arrays / lists of int"
+    elif k == 7:
+        val, label = [[np.float64(x) for x in a] for a in arrs], "lists of numpy scalars"
+    elif k == 8:
+        val, label = [tuple(a) if i % 2 else np.array(a) for i, a in enumerate(arrs)], "mixed tuple / ndarray"
+    STATS["w2p form:" + label] += 1
+    return val
+
+
+def model_num(v):
+    """the number a scalar argument means to the implementation (int('3') == 3, int(True) == 1)"""
+    if isinstance(v, (str, bool, np.bool_)):
+        return int(v)
+    if isinstance(v, (int, np.integer)):
+        return int(v)
+    return float(v)
+
+
+def form_int(rng, v, allow_str=True):
+    """an integer-valued argument in one of the forms int(value) accepts"""
+    if not (isinstance(v, int) and not isinstance(v, bool)) or abs(v) > 2 ** 20:
+        return v
+    k = rng.randrange(8)
+    forms = [v, v, np.int64(v), float(v), np.float64(v), np.float32(v), str(v) if allow_str else np.int32(v), True if v == 1 else v]
+    STATS["int form:" + type(forms[k]).__name__] += 1
+    return forms[k]
+
+
+def form_real(rng, v):
+    """a real-valued argument as Python float / numpy scalar (float32 only when exactly representable)"""
+    k = rng.randrange(4)
+    if k == 1:
+        return np.float64(v)
+    if k == 2 and float(np.float32(v)) == float(v):
+        STATS["real form:float32"] += 1
+        return np.float32(v)
+    if k == 3 and float(v).is_integer() and abs(v) < 2 ** 40:
+        STATS["real form:int"] += 1
+        return int(v)
+    return v
+
+
 def gen_mbpp(rng):
     r = rng.random()
-    if r < 0.6:
-        return rng.randint(1, 12)
+    if r < 0.55:
+        return form_int(rng, rng.randint(1, 12))
     if r < 0.75:
-        return rng.choice([0, -1, -3, 0.5, -0.5])     # rejected (int() truncates 0.5 and -0.5 to 0)
+        # rejected: int() truncates towards zero; the guard is value <= 0 AFTER int()
+        v = rng.choice([0, -1, -3, 0.5, -0.5, -0.0, 0.999999, -5e-324, 1e-300, False, "0", "-2", np.int64(0), np.float64(-0.0)])
+        STATS["guard value for an int attribute"] += 1
+        return v
     if r < 0.9:
-        return rng.choice([1.5, 2.7, 3.999, 7.0])
-    return rng.choice([1, 2, 5, 10, 16])
+        return rng.choice([1.5, 2.7, 3.999, 7.0, 1.0000001, np.float64(2.5)])
+    return rng.choice([1, 2, 5, 10, 16, 99, 100, 101, 2 ** 20, 10 ** 6])
 
 
 # ---------------------------------------------------------------------------------------------
 # Spectrometer histories
 # ---------------------------------------------------------------------------------------------
+def do_create_pipelines(inst, enc, prefix, ops, outs, log):
+    """create_pipelines() is a second entry point that fills both pipeline caches (instrument.py:68-79); for the
+    model it is a read of pipeline_classes followed by a read of pipeline_kwargs"""
+    st, v = call(inst.create_pipelines)
+    STATS["op:create_pipelines"] += 1
+    log.append("create_pipelines()")
+    if st == "err":
+        ops.append("%s GetClasses" % prefix)
+        outs.append("OErr %s" % v)
+        return
+    ops += ["%s GetClasses" % prefix, "%s GetKwargs" % prefix]
+    outs.append(enc.cl([type(p) for p in v]))
+    kw = do_get(inst, enc, 3)
+    kws = inst.pipeline_kwargs
+    # raysect replaces an empty name by the pipeline's default name
+    if len(kws) != len(v) or any(d["name"] and p.name != d["name"] for p, d in zip(v, kws)) or \
+            any(("filter" in d) and p.filter is not d["filter"] for p, d in zip(v, kws)):
+        kw = "OErr ErrOther"
+    outs.append(kw)
+
+
+def pick_past(rng, past):
+    """re-assign the current or an earlier accepted value (same value again, A -> B -> A)"""
+    STATS["op:re-assign a current/earlier value"] += 1
+    return rng.choice(past)
+
+
 def sp_history(rng, mod, enc, quick):
     """returns dict(case=<coq term>, final=<tracked parameters>, inst=<mutated instrument>, meta=...)"""
-    w2p, _ = gen_w2p(rng, allow_bad=False)
+    arrs, _ = gen_w2p(rng, allow_bad=False)
+    w2p = form_w2p(rng, arrs)
     mbpp = rng.randint(1, 10)
     name = rng.choice(NAMES)
-    p_txt = "{| spp_mbpp := %s; spp_w2p := %s; spp_name := %s |}" % (qlit(mbpp), qarrs(w2p), cstr(name))
-    inst = mod.Spectrometer(w2p, mbpp, name)
-    cur = {"w2p": w2p, "mbpp": mbpp, "name": name}
+    # constructor with default / keyword / positional arguments
+    r = rng.random()
+    if r < 0.1:
+        mbpp, name = 1, ""
+        inst = mod.Spectrometer(w2p)
+        STATS["ctor:defaults"] += 1
+    elif r < 0.2:
+        name = ""
+        inst = mod.Spectrometer(w2p, min_bins_per_pixel=mbpp)
+        STATS["ctor:defaults"] += 1
+    elif r < 0.3:
+        inst = mod.Spectrometer(name=name, min_bins_per_pixel=mbpp, wavelength_to_pixel=w2p)
+        STATS["ctor:keywords"] += 1
+    else:
+        inst = mod.Spectrometer(w2p, mbpp, name)
+    p_txt = "{| spp_mbpp := %s; spp_w2p := %s; spp_name := %s |}" % (qlit(mbpp), qarrs(arrs), cstr(name))
+    cur = {"w2p": w2p, "arrs": arrs, "mbpp": mbpp, "name": name}
+    past = {"w2p": [(w2p, arrs)], "mbpp": [mbpp], "name": [(name, name)]}
     ops, outs, log = [], ["OUnit"], []
     stale_window = False     # a read happened and a setter followed: the situation the tests never reach
     read_seen = False
     for _ in range(rng.randint(2, 10 if quick else 16)):
         r = rng.random()
-        if r < 0.4:
+        if r < 0.36:
             gi = rng.randrange(5)
             ops.append("SpGet %s" % GETTERS[gi][0])
             outs.append(do_get(inst, enc, gi))
             log.append(GETTERS[gi][1])
             read_seen = True
+        elif r < 0.41:
+            do_create_pipelines(inst, enc, "SpGet", ops, outs, log)
+            read_seen = True
         elif r < 0.6:
-            v, _ = gen_w2p(rng)
+            if rng.random() < 0.25:
+                v, va = pick_past(rng, past["w2p"])
+            else:
+                va, _ = gen_w2p(rng, allow_empty=True)
+                v = form_w2p(rng, va)
             o, ok = do_set(inst, "wavelength_to_pixel", v)
-            ops.append("SpSetW2p %s" % qarrs(v))
+            ops.append("SpSetW2p %s" % qarrs(va))
             outs.append(o)
-            log.append("wavelength_to_pixel=%r%s" % (v, "" if ok else " (rejected)"))
+            log.append("wavelength_to_pixel=%r%s" % (va, "" if ok else " (rejected)"))
             if ok:
-                cur["w2p"] = v
+                cur["w2p"], cur["arrs"] = v, va
+                past["w2p"].append((v, va))
                 stale_window |= read_seen
         elif r < 0.8:
-            v = gen_mbpp(rng)
+            v = pick_past(rng, past["mbpp"]) if rng.random() < 0.25 else gen_mbpp(rng)
             o, ok = do_set(inst, "min_bins_per_pixel", v)
-            ops.append("SpSetMbpp %s" % qlit(v))
+            ops.append("SpSetMbpp %s" % qlit(model_num(v)))
             outs.append(o)
             log.append("min_bins_per_pixel=%r%s" % (v, "" if ok else " (rejected)"))
             if ok:
                 cur["mbpp"] = int(v)
+                past["mbpp"].append(v)
                 stale_window |= read_seen
         elif r < 0.9:
-            v = rng.choice(NAMES)
+            v, vs = pick_past(rng, past["name"]) if rng.random() < 0.25 else gen_name(rng)
             o, ok = do_set(inst, "name", v)
-            ops.append("SpSetName %s" % cstr(v))
+            ops.append("SpSetName %s" % cstr(vs))
             outs.append(o)
-            log.append("name=%r" % v)
-            cur["name"] = v
+            log.append("name=%r" % (v,))
+            cur["name"] = vs
+            past["name"].append((v, vs))
             stale_window |= read_seen
         else:
             which = rng.choice(["SpGetW2p", "SpGetWl"])
@@ -273,7 +470,7 @@ def sp_history(rng, mod, enc, quick):
     outs += [enc.arrs(inst.wavelength_to_pixel), enc.arrs(inst.wavelengths)]
     case = "check_sp %s [%s] [%s]" % (p_txt, "; ".join(ops), "; ".join(outs))
     return {"case": case, "cur": cur, "inst": inst, "kind": "spectrometer", "log": log,
-            "init": {"w2p": w2p, "mbpp": mbpp, "name": name}, "stale_window": stale_window}
+            "init": {"w2p": arrs, "mbpp": mbpp, "name": name}, "stale_window": stale_window}
 
 
 def snapshot(inst, enc, arrays=True):
@@ -335,7 +532,7 @@ def sp_search(h, mod, enc):
         fresh = mod.Spectrometer(cur["w2p"], cur["mbpp"], cur["name"])
         per = cur["mbpp"]
         if int(inst.min_bins_per_pixel) != cur["mbpp"] or inst.name != cur["name"] or \
-                [list(map(float, a)) for a in inst.wavelength_to_pixel] != [list(map(float, a)) for a in cur["w2p"]]:
+                [list(map(float, a)) for a in inst.wavelength_to_pixel] != [list(map(float, a)) for a in cur["arrs"]]:
             fails.append("public parameters differ from the last accepted assignments")
     else:
         fresh = mod.CzernyTurnerSpectrometer(cur["order"], cur["grating"], cur["focal"], cur["spacing"], cur["angle"],
@@ -355,6 +552,46 @@ def sp_search(h, mod, enc):
         msg = check_pipelines(inst, a)
         if msg:
             fails.append(msg)
+    fails += sp_metamorphic(h, mod, a)
+    return fails
+
+
+def sp_metamorphic(h, mod, snap):
+    """consequences of the property that need no model: the settings do not depend on the ORDER in which the
+    accommodated spectra are listed, and they are covariant under a power-of-two change of wavelength unit"""
+    cur, fails = h["cur"], []
+    if snap["min_wavelength"][0] != "ok" or snap["spectral_bins"][0] != "ok":
+        return fails
+    want = (snap["min_wavelength"], snap["max_wavelength"], snap["spectral_bins"])
+    if h["kind"] == "spectrometer":
+        arrs = [list(map(float, a)) for a in cur["arrs"]]
+        if len(arrs) >= 2:
+            for perm, label in ((arrs[::-1], "reversed"), (arrs[1:] + arrs[:1], "rotated")):
+                o = mod.Spectrometer(perm, cur["mbpp"], cur["name"])
+                got = tuple(snapshot(o, Enc(), arrays=False)[k] for k in ("min_wavelength", "max_wavelength", "spectral_bins"))
+                if got != want:
+                    fails.append("settings depend on the order of the accommodated spectra: %s list gives %r, original %r" % (label, got, want))
+                    break
+        k = -7 if float.fromhex(want[0][1]) > 1.0 else 9
+        o = mod.Spectrometer([[x * 2.0 ** k for x in a] for a in arrs], cur["mbpp"], cur["name"])
+        got = (float(o.min_wavelength) / 2.0 ** k, float(o.max_wavelength) / 2.0 ** k, o.spectral_bins)
+        if got != (float.fromhex(want[0][1]), float.fromhex(want[1][1]), want[2][1]):
+            fails.append("settings are not covariant under scaling the wavelengths by 2^%d: %r vs %r" % (k, got, want))
+    else:
+        acc = [tuple(x) for x in cur["acc"]]
+        if len(acc) >= 2:
+            o = mod.CzernyTurnerSpectrometer(cur["order"], cur["grating"], cur["focal"], cur["spacing"], cur["angle"],
+                                             acc[::-1], cur["mbpp"], cur["name"])
+            got = tuple(snapshot(o, Enc(), arrays=False)[k] for k in ("min_wavelength", "max_wavelength", "spectral_bins"))
+            if got != want:
+                fails.append("settings depend on the order of the accommodated spectra: reversed list gives %r, original %r" % (got, want))
+        inst = h["inst"]
+        pub = (int(inst.diffraction_order), float(inst.grating), float(inst.focal_length), float(inst.pixel_spacing))
+        trk = (int(cur["order"]), float(cur["grating"]), float(cur["focal"]), float(cur["spacing"]))
+        if pub != trk or abs(float(inst.diffraction_angle) - float(cur["angle"])) > 1e-12 * float(cur["angle"]) \
+                or int(inst.min_bins_per_pixel) != cur["mbpp"] or inst.name != cur["name"] \
+                or [(float(w), int(n)) for w, n in inst.accommodated_spectra] != [(float(w), int(n)) for w, n in cur["acc"]]:
+            fails.append("public parameters differ from the last accepted assignments")
     return fails
 
 
